@@ -106,7 +106,7 @@ class BatchWorld:
         self.s_db = ctx.stream('db.latency')
         self.s_dbfault = ctx.stream('db.fault')
         self.s_rand = ctx.stream('sql.rand')
-        self.s_entropy = ctx.stream('entropy')
+        self.s_entropy = ctx.stream('entropy', 'prng')
         self.db_fault_rates = {}
         self.faults_on = True
         self.on_commit = []
